@@ -136,11 +136,22 @@ func initCodeFor(runtime []byte) []byte {
 	if len(runtime) > 255 {
 		runtime = runtime[:255]
 	}
-	init := []byte{0x60, byte(len(runtime)), 0x80, 0x60, 0x0c, 0x60, 0x00, 0x39, 0x60, 0x00, 0xf3}
+	init := []byte{0x60, byte(len(runtime)), 0x80, 0x60, 0x0b, 0x60, 0x00, 0x39, 0x60, 0x00, 0xf3} // 11 bytes: the runtime code starts at offset 0x0b
 	return append(init, runtime...)
 }
 
 func (g *TxGen) runtimeCode() []byte {
+	if g.C.Draw("envc", 5) == 4 {
+		// records the block context the EVM shows it: BLOCKHASH of the last ancestors, TIMESTAMP, COINBASE.
+		// Every node must see the same values whatever its own stable block / history is.
+		var code []byte
+		for k := 1; k <= 2+g.C.Draw("envc", 3); k++ {
+			code = append(code, 0x43, 0x60, byte(k), 0x90, 0x03, 0x40, 0x60, byte(0x10+k), 0x55) // sstore(0x10+k, blockhash(number-k))
+		}
+		code = append(code, 0x42, 0x60, 0x20, 0x55) // sstore(0x20, timestamp)
+		code = append(code, 0x41, 0x60, 0x21, 0x55) // sstore(0x21, coinbase)
+		return append(code, 0x00)
+	}
 	switch g.d(11) {
 	case 0: // store calldata word 0 at slot k
 		return []byte{0x60, 0x00, 0x35, 0x60, byte(g.d(4)), 0x55, 0x00}
